@@ -256,6 +256,41 @@ class Elit:
         if all(r.value is not None and self.expr(r.value, good, fns, depth) for r in rets): return True
         return self.body_flow(fn, elit_params, fns, depth)
 
+    def tuple_call(self, fn: ast.FunctionDef, call: ast.Call, good: set, fns: dict, depth, width: int) -> list:
+        """per component: is it elit in every `return (e0, e1, ...)` of fn, given the elit arguments of the call (flow-sensitive walk of fn)"""
+        if depth > 6: return [False] * width
+        params = [a.arg for a in fn.args.args]
+        if fn.args.vararg or fn.args.kwarg or len(call.args) > len(params): return [False] * width
+        elit_params = {p_ for p_, a_ in zip(params, call.args) if self.expr(a_, good, fns, depth + 1)}
+        for k_ in call.keywords:
+            if k_.arg in params and self.expr(k_.value, good, fns, depth + 1): elit_params.add(k_.arg)
+        ok = [True] * width
+        rets = [n for n in iter_own(fn) if isinstance(n, ast.Return)]
+        if not rets: return [False] * width
+        # a conservative flow-insensitive judgement of the returned tuples: names bound exactly once to an elit expression (or elit parameters never rebound)
+        assigns = {}
+        for n in iter_own(fn):
+            if isinstance(n, ast.Assign):
+                for t in n.targets:
+                    for nm in names_in_target(t): assigns.setdefault(nm, []).append(n.value if isinstance(t, ast.Name) else None)
+            elif isinstance(n, (ast.AugAssign, ast.AnnAssign, ast.For, ast.comprehension)):
+                tg = n.target
+                for nm in names_in_target(tg): assigns.setdefault(nm, []).append(None)
+        g0 = {p_ for p_ in elit_params if p_ not in assigns}
+        changed = True
+        cand = set(assigns)
+        while changed:
+            changed = False
+            for nm in list(cand):
+                if any(v is None or not self.expr(v, g0 | (cand - {nm}), fns, depth + 1) for v in assigns[nm]):
+                    cand.discard(nm); changed = True
+        g = g0 | cand
+        for r_ in rets:
+            if not (isinstance(r_.value, ast.Tuple) and len(r_.value.elts) == width): return [False] * width
+            for i_, e_ in enumerate(r_.value.elts):
+                if ok[i_] and not self.expr(e_, g, fns, depth + 1): ok[i_] = False
+        return ok
+
     def body_flow(self, fn: ast.FunctionDef, elit_params: set, fns: dict, depth) -> bool:
         """the same question, flow-sensitively: a name may be bound first to an elit value and LATER to another candidate (`agent = strategy(x); if ..: return agent;
         agent = fresh; return greedy(x, agent)`): what matters is the binding that reaches each `return`.  Forward walk over the statements; `good` = names whose
@@ -290,6 +325,13 @@ class Elit:
                     if len(st.targets) == 1 and isinstance(st.targets[0], ast.Name):
                         nm = st.targets[0].id
                         (good.add if self.expr(st.value, good, fns_, depth) else good.discard)(nm)
+                    elif len(st.targets) == 1 and isinstance(st.targets[0], ast.Tuple) and all(isinstance(e_, ast.Name) for e_ in st.targets[0].elts) \
+                            and isinstance(st.value, ast.Call) and isinstance(st.value.func, ast.Name) and st.value.func.id in fns_:
+                        # a, b, c = local_function(...): component i is elit when EVERY return of the callee is a tuple whose i-th element is elit (w.r.t. its elit arguments)
+                        names_ = [e_.id for e_ in st.targets[0].elts]
+                        ok_ = self.tuple_call(fns_[st.value.func.id], st.value, good, fns_, depth, len(names_))
+                        for i_, nm in enumerate(names_):
+                            (good.add if ok_[i_] else good.discard)(nm)
                     else:
                         for t in st.targets: good -= set(names_in_target(t))
                     continue
@@ -298,7 +340,22 @@ class Elit:
                     else: good -= set(names_in_target(st.target))
                     continue
                 if isinstance(st, ast.If):
-                    g1 = walk(st.body, good, fns_); g2 = walk(st.orelse, good, fns_)
+                    # `if x.cost < y.cost:` with y elit: inside the branch x is not worse than y, hence elit too (internal costs: lower is better, the direction is
+                    # folded into the cost by _fcn); symmetric for `y.cost > x.cost`, and for the else-branch of `y.cost <= x.cost` ...
+                    gb, ge = set(good), set(good)
+                    t_ = st.test
+                    if isinstance(t_, ast.Compare) and len(t_.ops) == 1 and all(isinstance(z_, ast.Attribute) and z_.attr == "cost" and isinstance(z_.value, ast.Name) for z_ in (t_.left, t_.comparators[0])):
+                        l_, r_ = t_.left.value.id, t_.comparators[0].value.id
+                        if isinstance(t_.ops[0], (ast.Lt, ast.LtE)):
+                            if r_ in good: gb.add(l_)
+                            if l_ in good: ge.add(r_)
+                        elif isinstance(t_.ops[0], (ast.Gt, ast.GtE)):
+                            if l_ in good: gb.add(r_)
+                            if r_ in good: ge.add(l_)
+                    g1 = walk(st.body, gb, fns_); g2 = walk(st.orelse, ge, fns_)
+                    # names made good only by the branch condition do not survive the join unless both sides agree
+                    if g1 is not None: g1 = {n_ for n_ in g1 if n_ in good or (g2 is not None and n_ in g2) or n_ in bound_in(st.body)}
+                    if g2 is not None: g2 = {n_ for n_ in g2 if n_ in good or (g1 is not None and n_ in g1) or n_ in bound_in(st.orelse)}
                     if g1 is None and g2 is None: return None
                     good = g2 if g1 is None else g1 if g2 is None else (g1 & g2)
                     continue
